@@ -220,19 +220,28 @@ impl Model for DefaultModel {
         ptype: &str,
         rules: Vec<Vec<String>>,
     ) -> bool {
-        let mut all_added = true;
+        if rules.is_empty() {
+            return false;
+        }
         if let Some(ast_map) = self.model.get_mut(sec) {
             if let Some(ast) = ast_map.get_mut(ptype) {
                 for rule in &rules {
                     if ast.policy.contains(rule) {
-                        all_added = false;
-                        return all_added;
+                        return false;
                     }
                 }
-                ast.policy.extend(rules);
+                // a rule repeated inside the batch is stored once, at its
+                // first position (extend would move it to the back)
+                for rule in rules {
+                    if !ast.policy.contains(&rule) {
+                        ast.policy.insert(rule);
+                    }
+                }
+                return true;
             }
         }
-        all_added
+        // unknown section or policy type: nothing was stored
+        false
     }
 
     fn get_policy(&self, sec: &str, ptype: &str) -> Vec<Vec<String>> {
@@ -319,21 +328,24 @@ impl Model for DefaultModel {
         ptype: &str,
         rules: Vec<Vec<String>>,
     ) -> bool {
-        let mut all_removed = true;
+        if rules.is_empty() {
+            return false;
+        }
         if let Some(ast_map) = self.model.get_mut(sec) {
             if let Some(ast) = ast_map.get_mut(ptype) {
                 for rule in &rules {
                     if !ast.policy.contains(rule) {
-                        all_removed = false;
-                        return all_removed;
+                        return false;
                     }
                 }
                 for rule in &rules {
                     ast.policy.remove(rule);
                 }
+                return true;
             }
         }
-        all_removed
+        // unknown section or policy type: nothing was removed
+        false
     }
 
     fn clear_policy(&mut self) {
